@@ -35,18 +35,30 @@ class InvertedBooleanCheckTransformer(LibcstResultTransformer):
             if comparison.comparisons[0].comparator.value == "True":
                 self.report_change(original_node)
                 return cst.UnaryOperation(
-                    operator=cst.Not(), expression=comparison.left
+                    operator=cst.Not(),
+                    expression=comparison.left,
+                    lpar=original_node.lpar,
+                    rpar=original_node.rpar,
                 )
 
             # Handle 'not status is False' -> 'status'
             if comparison.comparisons[0].comparator.value == "False":
                 self.report_change(original_node)
-                return comparison.left
+                return comparison.left.with_changes(
+                    lpar=[*original_node.lpar, *comparison.left.lpar],
+                    rpar=[*comparison.left.rpar, *original_node.rpar],
+                )
 
         inverted_comparisons = self._invert_comparisons(comparison)
 
         self.report_change(original_node)
-        return cst.Comparison(left=comparison.left, comparisons=inverted_comparisons)
+        # `1 + (not a == b)` must stay `1 + (a != b)`: keep the parentheses of the negation
+        return cst.Comparison(
+            left=comparison.left,
+            comparisons=inverted_comparisons,
+            lpar=original_node.lpar,
+            rpar=original_node.rpar,
+        )
 
     def _invert_comparisons(
         self, comparison: cst.Comparison
